@@ -44,3 +44,14 @@ func VerifHarness_C08_PNG_Skeleton() {
 	in, _ := VerifBuildPNG(verifChoice(2))
 	verifSegmented(in)
 }
+
+// VerifHarness_C08_NegControl: deliberately wrong claim (a source failing after 10 bytes gives
+// the same outcome as a complete one); must be reported as violated.
+func VerifHarness_C08_NegControl() {
+	in, _ := VerifBuildPNG(0)
+	md1, _, err1 := Load(rd.New(in))
+	src := rd.New(in)
+	src.FailAt = 10
+	md2, _, err2 := Load(src)
+	VerifSameMeta(md1, err1, md2, err2)
+}
